@@ -19,7 +19,10 @@ import numpy as np
 from ..core import Violation, short
 
 RUNS = {"quick": 6000, "thorough": 90000}
-SELFCHECK = {"quick": 16, "thorough": 48}
+SELFCHECK = {"quick": 32, "thorough": 96}
+# fresh-interpreter lane of the self-check runs under python -O as well (the
+# operations of this engine do not depend on an assert of the pinned code)
+FRESH_OPTIMIZE = True
 CHUNK = 50
 LEVEL = "exploration"
 RULE = ("each run = seeded history of 3-25 operations of one analyst process "
@@ -914,12 +917,20 @@ def run(cs, log, ctx):
                 os.environ.pop("SOURCE_DATE_EPOCH", None)
             else:
                 os.environ["SOURCE_DATE_EPOCH"] = sde
-            log.ev("env", tz, sde)
+            # a process that turns warnings into errors (python -W error,
+            # a test runner's filterwarnings=error): writes then fail if the
+            # library trips over a warning half-way; reads stay shielded
+            werror = cs.flip("warnings_as_errors", 25)
+            log.ev("env", tz, sde, werror)
+            if werror:
+                ctx.hit("fault.warnings_are_errors")
             nsteps = cs.between("nsteps", 3, 25)
             enabled = {k: not cs.flip("off." + k, 15) for k, _ in OPS}
             enabled["write"] = True
             enabled["read"] = True
             log.ev("config", nsteps, sorted(k for k in enabled if enabled[k]))
+        if werror:
+            warnings.simplefilter("error")
         for step in range(nsteps):
             with cs.span("step"):
                 kind = cs.weighted("op", [(k, wgt) for k, wgt in OPS
